@@ -28,6 +28,8 @@ SPEC = {
         "`sym` only. verify_own_period assumes BaseCorrect (Ed25519 sign-then-verify, C11)",
     ],
     "assumptions": ["pallas-crypto built with feature `kes` (the harness does)", "KesSk::from_bytes on foreign buffers is not exercised (keys come from keygen + update)"],
-    "explanation": "self-test: compact sign_from_slice with the pk offsets of the two branches swapped -> VIOLATION (own-period-rejected); "
-                   "sum verify descending with `period <= half` -> VIOLATION; harmless: Depth(d).half() replaced by 1 << (d-1) -> quiet.",
+    "explanation": "self-tests run on a scratch edit of the pallas worktree (reverted afterwards): compact sign_from_slice with the pk "
+                   "offsets of the two branches swapped -> exit 1, VIOLATION own-period-rejected compact1 period=0 (3-op replay); sum verify "
+                   "descending with `period <= half` -> exit 1, VIOLATION own-period-rejected sum1 period=1 and other-period-accepted; harmless: "
+                   "Depth::half written as 1 << (d-1) -> exit 0, quiet.",
 }
